@@ -30,6 +30,12 @@ def replay(job):
         proj.write("bumpver.toml", project.bumpver_toml(old, vp, ents, commit=case["commit"]))
         for k, name in enumerate(names):
             if fault["kind"] == "removed" and fault["k"] == k + 1:
+                # the file cannot be read: it is absent, or a directory stands in its place, or its bytes are not UTF-8
+                how = seed % 4
+                if how == 1:
+                    os.makedirs(os.path.join(proj.root, name))
+                elif how == 2:
+                    proj.write(name, b"ver=" + old.encode() + b"\n\xff\xfe broken \xc3\x28\n")
                 continue
             lines = ["# file %d" % (k + 1)]
             for j in range(case["pats"][k]):
@@ -107,7 +113,7 @@ def run(ctx):
         if e["case"]["fault"]["kind"] != "none":
             ctx.nontriv(e["dbg"])
     ctx.exhaustive = not ctx.quick
-    ctx.rule = ("every terminal state of MC_C06 (projects of 1..%d files x 1..3 patterns, every single fault position, commit on/off with a fake git, dry/real, v2 and legacy engine) "
+    ctx.rule = ("every terminal state of MC_C06 (projects of 1..%d files x 1..3 patterns, every single fault position (an unreadable file is absent, a directory, or not UTF-8), commit on/off with a fake git, dry/real, v2 and legacy engine) "
                 "replayed against the real `update` with the config file's own entry at a varying position and matching patterns occurring on 1..3 lines; quick: all cases up to 3 files + 500 sampled larger ones; "
                 "non-trivial = cases with a fault" % maxf)
     for e in events[5:8]:
